@@ -159,7 +159,7 @@ fn expected(join_type: JoinType, left: &[V], right_batches: &[Vec<V>]) -> Vec<(V
 }
 
 #[test]
-fn c06_join_hash_table__definition_of_join__nat() {
+fn c03c06_join_hash_table__definition_of_join__nat() {
     let lefts = seqs(&[Some(1), Some(2), None], 4);
     let r1 = seqs(&[Some(1), Some(3), None], 2);
     let r2 = seqs(&[Some(1), Some(3), None], 1);
